@@ -59,6 +59,8 @@ GridReasons(r) ==
          R(Positions(r.gsize) \subseteq {r.ps[k] : k \in 1..Len(r.ps)}, "HARNESS-PRECONDITION")
          \cup R(\A k \in 1..Len(r.ps) : Opt(k, r.some, r.val) = AtOptional(g, r.ps[k]), "at_optional")
          \cup R(\A k \in 1..Len(r.ps) : Opt(k, r.somec, r.valc) = AtOptional(g, r.ps[k]), "at_optional-const")
+    [] r.f = "in_range" ->
+         R(Positions(r.gsize) \subseteq {r.ps[k] : k \in 1..Len(r.ps)}, "HARNESS-PRECONDITION")
          \cup R(\A k \in 1..Len(r.ps) : r.inr[k] = Bool01(InRange(r.ps[k], r.gsize)), "in_range")
          \cup R(\A k \in 1..Len(r.ps) : r.ird[k] = Bool01(InRange(r.ps[k], r.gsize)), "in_range_dim")
     [] r.f = "construct" ->
